@@ -467,8 +467,10 @@ impl Server {
             "enc" => cmd_enc(&t),
             "dec" => cmd_dec(&t),
             "prim" => cmd_prim(&t),
+            "bcx" => cmd_bcx(&t),
             "ft" => cmd_ft(&t),
             "ramx" => cmd_ramx(&t),
+            "diskx" => self.cmd_diskx(&t),
             "sched" => self.cmd_sched(&t),
             "schedr" => self.cmd_schedr(&t),
             _ => None,
@@ -479,10 +481,23 @@ impl Server {
     // ------------------------------------------------------------------ disks
 
     fn cmd_disk(&mut self, t: &[&str]) -> Option<String> {
-        if t.len() < 2 || t.len() > 3 || !valid_name(t[1]) {
+        // disk D [vec|ram|file] [from=V]   (from=V, file only: the four stores start as copies of those of the vec disk V)
+        if t.len() < 2 || t.len() > 4 || !valid_name(t[1]) {
             return None;
         }
-        let kind = if t.len() == 3 { t[2] } else { "vec" };
+        let kind = if t.len() >= 3 { t[2] } else { "vec" };
+        let from: Option<[Vec<u8>; 4]> = match t.get(3) {
+            None => None,
+            Some(x) => {
+                let v = x.strip_prefix("from=")?;
+                if kind != "file" {
+                    return None;
+                }
+                let d = self.vec_disk(v)?;
+                let st = lock(&d);
+                Some(st.files.clone())
+            }
+        };
         let disk = match kind {
             "vec" => Disk::Vec(Arc::new(Mutex::new(DiskState::new()))),
             "ram" => Disk::Ram(std::array::from_fn(|_| {
@@ -505,6 +520,13 @@ impl Server {
                 }
                 if let Ok(mut g) = SCRATCH_DIRS.lock() {
                     g.push(dir.clone());
+                }
+                if let Some(files) = &from {
+                    for (k, name) in FILE_NAMES.iter().enumerate() {
+                        if std::fs::write(dir.join(name), &files[k]).is_err() {
+                            return Some("err IO".to_string());
+                        }
+                    }
                 }
                 Disk::File(dir)
             }
@@ -1324,6 +1346,90 @@ fn cmd_prim(t: &[&str]) -> Option<String> {
     Some(r.unwrap_or_else(|p| format!("panic {p}")))
 }
 
+/// `bcx CAP op op …` — runs the operations on a fresh channel of the dependency crate async-broadcast itself, configured
+/// exactly as `Events::new()` of /repo/src/replication/events.rs configures it (`broadcast(CAP)`, `set_await_active(false)`,
+/// the first receiver deactivated and kept, `set_overflow(true)`), and answers `ok obs obs …`; ops: `s<MSG>` =
+/// `try_broadcast(MSG)` (u64 message), `n` = `new_receiver()` (receivers are numbered 0, 1, … in creation order), `r<K>` =
+/// `try_recv()` on receiver K, `d<K>` = drop receiver K, `l` = `len()` and `receiver_count()`.
+fn cmd_bcx(t: &[&str]) -> Option<String> {
+    if t.len() < 2 {
+        return None;
+    }
+    let cap = num(t[1])? as usize;
+    if cap == 0 {
+        return None;
+    }
+    enum Op {
+        S(u64),
+        N,
+        R(usize),
+        D(usize),
+        L,
+    }
+    let mut ops = Vec::new();
+    for o in &t[2..] {
+        if o.is_empty() || !o.is_ascii() {
+            return None;
+        }
+        let (h, rest) = o.split_at(1);
+        ops.push(match (h, rest.is_empty()) {
+            ("s", false) => Op::S(num(rest)?),
+            ("n", true) => Op::N,
+            ("r", false) => Op::R(num(rest)? as usize),
+            ("d", false) => Op::D(num(rest)? as usize),
+            ("l", true) => Op::L,
+            _ => return None,
+        });
+    }
+    let r = guarded(move || {
+        // Events::new()
+        let (mut channel, receiver) = async_broadcast::broadcast::<u64>(cap);
+        channel.set_await_active(false);
+        let mut _receiver = receiver.deactivate();
+        _receiver.set_overflow(true);
+        let mut rcv: Vec<Option<Receiver<u64>>> = Vec::new();
+        let mut out = String::from("ok");
+        for o in ops {
+            let s = match o {
+                // Events::send
+                Op::S(m) => match channel.try_broadcast(m) {
+                    Ok(None) => "ok".to_string(),
+                    Ok(Some(d)) => format!("ok:{d}"),
+                    Err(async_broadcast::TrySendError::Full(_)) => "full".to_string(),
+                    Err(async_broadcast::TrySendError::Closed(_)) => "closed".to_string(),
+                    Err(async_broadcast::TrySendError::Inactive(_)) => "inactive".to_string(),
+                },
+                // Hypercore::event_subscribe
+                Op::N => {
+                    rcv.push(Some(channel.new_receiver()));
+                    format!("id:{}", rcv.len() - 1)
+                }
+                Op::R(k) => match rcv.get_mut(k).and_then(|x| x.as_mut()) {
+                    Some(rx) => match rx.try_recv() {
+                        Ok(m) => format!("m:{m}"),
+                        Err(TryRecvError::Overflowed(n)) => format!("ov:{n}"),
+                        Err(TryRecvError::Empty) => "empty".to_string(),
+                        Err(TryRecvError::Closed) => "closed".to_string(),
+                    },
+                    None => "x".to_string(),
+                },
+                Op::D(k) => match rcv.get_mut(k).and_then(|x| x.take()) {
+                    Some(rx) => {
+                        drop(rx);
+                        "done".to_string()
+                    }
+                    None => "x".to_string(),
+                },
+                Op::L => format!("n:{}:{}", channel.len(), channel.receiver_count()),
+            };
+            out.push(' ');
+            out.push_str(&s);
+        }
+        out
+    });
+    Some(r.unwrap_or_else(|p| format!("panic {p}")))
+}
+
 /// `ramx PAGE_SIZE op op …` — runs the operations on a fresh `RandomAccessMemory::new(PAGE_SIZE)` (the dependency
 /// crate itself, not /repo) and answers `ok obs obs … | CONTENT`; ops: `w:OFF:HEX`, `r:OFF:N`, `d:OFF:N`, `t:N`, `l`.
 fn cmd_ramx(t: &[&str]) -> Option<String> {
@@ -1395,6 +1501,131 @@ fn cmd_ramx(t: &[&str]) -> Option<String> {
         })
     });
     Some(r.unwrap_or_else(|p| format!("panic {p}")))
+}
+
+/// `diskx DIR op op …` — runs the operations on the REAL `RandomAccessDisk` (the dependency crate random-access-disk, as
+/// compiled into this harness: tokio runtime, feature "sparse" = hole punching on linux) on a fresh file `DIR/store`; DIR (a
+/// path, relative ones below HC_SCRATCH / the temp dir) must not exist: it is created and removed by the command.
+/// Ops as for `ramx` plus `o` (drop the store and open the same file again): `w:OFF:HEX`, `r:OFF:N`, `d:OFF:N`, `t:N`, `l`, `o`.
+/// Answer: `ok obs obs … | CONTENT | RAW` — CONTENT is read back through the interface (in pieces of at most 64 KiB),
+/// RAW is the file as the OS has it afterwards (std::fs::read).
+impl Server {
+    fn cmd_diskx(&mut self, t: &[&str]) -> Option<String> {
+        if t.len() < 2 {
+            return None;
+        }
+        enum Op {
+            W(u64, Vec<u8>),
+            R(u64, u64),
+            D(u64, u64),
+            T(u64),
+            L,
+            O,
+        }
+        let mut ops = Vec::new();
+        for o in &t[2..] {
+            let f: Vec<&str> = o.split(':').collect();
+            ops.push(match (f[0], f.len()) {
+                ("w", 3) => Op::W(num(f[1])?, unhex(f[2])?),
+                ("r", 3) => Op::R(num(f[1])?, num(f[2])?),
+                ("d", 3) => Op::D(num(f[1])?, num(f[2])?),
+                ("t", 2) => Op::T(num(f[1])?),
+                ("l", 1) => Op::L,
+                ("o", 1) => Op::O,
+                _ => return None,
+            });
+        }
+        let mut dir = PathBuf::from(t[1]);
+        if dir.is_relative() {
+            dir = std::env::var_os("HC_SCRATCH")
+                .map(PathBuf::from)
+                .unwrap_or_else(std::env::temp_dir)
+                .join(dir);
+        }
+        if dir.exists() || std::fs::create_dir_all(&dir).is_err() {
+            return Some("err IO".to_string());
+        }
+        if let Ok(mut g) = SCRATCH_DIRS.lock() {
+            g.push(dir.clone());
+        }
+        let path = dir.join("store");
+        let rt = &self.rt;
+        let r = guarded(|| {
+            rt.block_on(async {
+                fn e(x: RandomAccessError) -> String {
+                    match x {
+                        RandomAccessError::OutOfBounds { .. } => "oob".to_string(),
+                        _ => "io".to_string(),
+                    }
+                }
+                let mut disk = match RandomAccessDisk::open(path.clone()).await {
+                    Ok(d) => d,
+                    Err(_) => return "err IO".to_string(),
+                };
+                let mut out = String::from("ok");
+                for o in ops {
+                    let s = match o {
+                        Op::W(off, data) => match disk.write(off, &data).await {
+                            Ok(()) => "done".to_string(),
+                            Err(x) => e(x),
+                        },
+                        Op::R(off, n) => match disk.read(off, n).await {
+                            Ok(v) => format!("b:{}", hex(&v)),
+                            Err(x) => e(x),
+                        },
+                        Op::D(off, n) => match disk.del(off, n).await {
+                            Ok(()) => "done".to_string(),
+                            Err(x) => e(x),
+                        },
+                        Op::T(n) => match disk.truncate(n).await {
+                            Ok(()) => "done".to_string(),
+                            Err(x) => e(x),
+                        },
+                        Op::L => match disk.len().await {
+                            Ok(n) => format!("n:{n}"),
+                            Err(_) => "io".to_string(),
+                        },
+                        Op::O => {
+                            drop(disk);
+                            disk = match RandomAccessDisk::open(path.clone()).await {
+                                Ok(d) => d,
+                                Err(_) => return "err IO".to_string(),
+                            };
+                            "done".to_string()
+                        }
+                    };
+                    out.push(' ');
+                    out.push_str(&s);
+                }
+                let n = disk.len().await.unwrap_or(0);
+                let mut content = Vec::new();
+                let mut at = 0u64;
+                while at < n {
+                    let k = std::cmp::min(65536, n - at);
+                    match disk.read(at, k).await {
+                        Ok(v) => content.extend_from_slice(&v),
+                        Err(_) => return "err IO".to_string(),
+                    }
+                    at += k;
+                }
+                drop(disk);
+                let raw = match std::fs::read(&path) {
+                    Ok(v) => v,
+                    Err(_) => return "err IO".to_string(),
+                };
+                out.push_str(" | ");
+                out.push_str(&hex(&content));
+                out.push_str(" | ");
+                out.push_str(&hex(&raw));
+                out
+            })
+        });
+        let _ = std::fs::remove_dir_all(&dir);
+        if let Ok(mut g) = SCRATCH_DIRS.lock() {
+            g.retain(|d| d != &dir);
+        }
+        Some(r.unwrap_or_else(|p| format!("panic {p}")))
+    }
 }
 
 fn cmd_ft(t: &[&str]) -> Option<String> {
